@@ -212,6 +212,13 @@ def check(prop, tier):
             common.machinery("fix-run traces: %s %s" % (fst["tlc_errors"][:2], fst["unfinished"][:3]))
         mine += [f for f in fr["findings"] if f["property"] == prop]
         extra["fix_run_traces"] = fst["traces"]
+    if prop == "C14":
+        # the exit status and the JUnit / JSON entries of multi-file, multi-job invocations, as behaviours of spec/Main.tla
+        import batchfam
+
+        bf, binfo = batchfam.extra_findings(prop, tier)
+        mine += bf
+        extra["command_line_model"] = binfo
     known_hits, new = F.split_known(mine, prop)
     rc = common.report(prop, known_hits, new, lambda f: F.write_replay(prop, f))
     nrec = sum(st["records"].get(t, 0) for t in TYPES[prop])
